@@ -279,6 +279,25 @@ def genLayerRound (i : Nat) : G (List String) := do
               effects := effects ++ [effectOf m.dest m.endian v]
       let items := colItems effects
       out := out ++ ["call parsepacket " ++ cid ++ " " ++ hexOf d, "expect @res ok", "expect @col 0 " ++ " ".intercalate items]
+      -- the same frame cut exactly at a layer boundary: only the layers inside the capture are mapped — a header
+      -- that is not there contributes nothing (no zero-valued custom field, no empty string)
+      let sizes := layers.map (·.2.1)
+      let bounds := (List.range (sizes.length + 1)).map fun i => (sizes.take i).foldl (· + ·) 0
+      let cutAt ← pick bounds
+      if cutAt < d.length then
+        let mut effectsCut : List Effect := []
+        let mut start := 0
+        for ((keys, st, enc), (_, size, _)) in table.zip layers do
+          let _ := st
+          if start + size ≤ cutAt then
+            for key in keys do
+              for m in maps do
+                if m.layer = key ∧ m.encap = enc then
+                  let v := (extract (d.take cutAt) (8 * start + m.offset) m.length true).getD []
+                  effectsCut := effectsCut ++ [effectOf m.dest m.endian v]
+          start := start + size
+        out := out ++ ["call parsepacket " ++ cid ++ " " ++ hexOf (d.take cutAt), "expect @res ok",
+                       "expect @col 0 " ++ " ".intercalate (colItems effectsCut)]
     pure out
 
 /-! ### (d) -/
